@@ -11,6 +11,7 @@
 #include "conform.h"
 
 #include "core/Memory.h"
+#include "core/MemoryPage.h"
 #include "core/cpu_list.h"
 #include "simulate/Simulate.h"
 
@@ -19,6 +20,7 @@ static uint8_t bg(uint32_t a) { return (uint8_t)((a * 7 + 3) & 0xff); }
 struct SimRun
 {
   int ret;
+  uint32_t top;   // highest page address the simulator allocated
   std::string dump;
   std::vector<std::pair<std::string, uint32_t> > regs;
   std::vector<std::pair<uint32_t, uint8_t> > diff;
@@ -80,6 +82,12 @@ static SimRun one_run(int cpu, const Case &c)
     uint8_t v = m->read8(a);
     if (v != ref->read8(a)) { r.diff.push_back(std::make_pair(a, v)); if (r.diff.size() > 64) { break; } }
   }
+  r.top = 0;
+  // pages the simulator allocated itself (the prepared state already owns the pages of `ref`)
+  for (MemoryPage *p = m->pages; p != NULL; p = p->next)
+  {
+    if (!ref->in_use(p->address) && p->address > r.top) { r.top = p->address; }
+  }
   delete sim;
   delete m;
   delete ref;
@@ -88,7 +96,7 @@ static SimRun one_run(int cpu, const Case &c)
 
 static void print_run(FILE *out, const char *key, const SimRun &r)
 {
-  fprintf(out, "\"%s\":{\"ret\":%d,\"regs\":{", key, r.ret);
+  fprintf(out, "\"%s\":{\"ret\":%d,\"top\":%u,\"regs\":{", key, r.ret, r.top);
   for (size_t i = 0; i < r.regs.size(); i++)
   {
     fprintf(out, "%s\"%s\":%u", i ? "," : "", r.regs[i].first.c_str(), r.regs[i].second);
